@@ -442,7 +442,7 @@ fn add_ignore_files(rng: &mut Rng, tree: &mut Tree) {
 }
 
 pub fn run(ctx: &Ctx) -> Report {
-    let ntrees = ctx.cases(800, 20_000);
+    let ntrees = ctx.cases(800, 10_000);
     let ncfg = if ctx.is_thorough() { 12 } else { 6 };
     let thorough = ctx.is_thorough();
     crate::par_cases(ctx, 6, ntrees, |rng, i, rep| {
